@@ -350,3 +350,77 @@ def exact_int(x) -> int:
     if float(xi) != float(x):
         raise ValueError(f"not an exact integer: {x!r}")
     return xi
+
+
+# --------------------------------------------------------------------------
+# [T]-tier contracts (spec/lib/Contracts.tla)
+# --------------------------------------------------------------------------
+
+def mag(v) -> int:
+    """defect magnitude in units of 0.1 decade: ceil(10*log10|v|); exact zero -> -3000; nan/inf -> 9999."""
+    import math
+    v = abs(float(v))
+    if not math.isfinite(v):
+        return 9999
+    if v == 0.0:
+        return -3000
+    return int(math.ceil(10 * math.log10(v)))
+
+
+class ContractSet:
+    """Collects contract traces (one per configuration/execution) and lets TLC decide them."""
+
+    def __init__(self, ck: "Check", part: str):
+        self.ck, self.part, self.traces = ck, part, []
+
+    def trace(self, label: str, bounds: dict, data=None):
+        t = {"label": label, "bounds": dict(bounds), "ev": [], "data": data}
+        self.traces.append(t)
+        return t
+
+    @staticmethod
+    def obs(t, name, value):
+        t["ev"].append({"name": name, "mag": mag(value), "value": float(value) if value == value else None})
+
+    def decide(self, key_fn=None, timeout=1800):
+        """Run TLC on all traces; report violations through ck.violation(key_fn(trace, name), ...)."""
+        if not self.traces:
+            raise MachineryError(f"{self.part}: no contract traces recorded")
+        wire = [{"bounds": t["bounds"], "ev": [{"name": e["name"], "mag": e["mag"]} for e in t["ev"]]} for t in self.traces]
+        states, rej = validate_traces(SPEC / "lib" / "Contracts.tla", SPEC / "cfg" / "Contracts.cfg", wire, timeout=timeout)
+        self.ck.cov["traces_validated_against_impl"] += len(wire)
+        worst, margin = {}, {}
+        for t in self.traces:
+            for e in t["ev"]:
+                worst[e["name"]] = max(worst.get(e["name"], -9999), e["mag"])
+                if e["name"] in t["bounds"]:
+                    margin[e["name"]] = min(margin.get(e["name"], 9999), t["bounds"][e["name"]] - e["mag"])
+        self.ck.part(self.part, traces=len(wire), trace_states=states, rejected=len(rej),
+                     worst_magnitude_tenth_decades=worst, smallest_margin_tenth_decades=margin)
+        for tix, (where, detail) in sorted(rej.items()):
+            t = self.traces[tix]
+            bad = [e for e in t["ev"] if e["name"] in t["bounds"] and e["mag"] > t["bounds"][e["name"]]]
+            if bad:
+                e = bad[0]
+                key = key_fn(t, e["name"]) if key_fn else f"{self.part}|contract:{e['name']}"
+                self.ck.violation(key, f"{t['label']}: {e['name']} = {e['value']!r} (10^{e['mag'] / 10:.1f}) exceeds bound "
+                                       f"10^{t['bounds'][e['name']] / 10:.1f}", {"label": t["label"], "trace": t["ev"], "cfg": t["data"]})
+            else:
+                missing = [n for n in t["bounds"] if n not in {e["name"] for e in t["ev"]}]
+                raise MachineryError(f"{self.part}: contract trace '{t['label']}' rejected without a bound violation "
+                                     f"(unobserved: {missing}; at {where})")
+        return rej
+
+    def selftest(self):
+        """A trace with one observable pushed over its bound must be rejected by TLC."""
+        good = [t for t in self.traces if t["ev"]]
+        if not good:
+            return
+        t = json.loads(json.dumps({"bounds": good[0]["bounds"], "ev": [{"name": e["name"], "mag": e["mag"]} for e in good[0]["ev"]]}))
+        t["ev"][-1]["mag"] = t["bounds"][t["ev"][-1]["name"]] + 1
+        t2 = json.loads(json.dumps(t))
+        t2["ev"][-1]["mag"] = -3000
+        t2["ev"] = t2["ev"][:-1] if len({e["name"] for e in t2["ev"][:-1]}) < len(t2["bounds"]) else t2["ev"]
+        _, rj = validate_traces(SPEC / "lib" / "Contracts.tla", SPEC / "cfg" / "Contracts.cfg", [t])
+        if 0 not in rj:
+            raise MachineryError(f"{self.part}: binding self-test failed: an out-of-bound observable was accepted")
